@@ -3,6 +3,7 @@
   Theorems about the runtime model `RT` (all grammars, code blocks, flags, options,
   inputs, fuel; memoization and left recursion included).
 -/
+import PigeonVerif.Proofs.SpecStore
 import PigeonVerif.Proofs.StoreLemmas
 
 namespace PV
@@ -133,4 +134,29 @@ theorem C05_D6_leader_memo_hit_drops_state_effects :
 end WitnessC05
 
 end RT
+end PV
+
+/-! ### the same, declaratively: the PEG specification
+
+  `Spec.eval` (Spec/Peg.lean) threads the store through the evaluation and rolls it back explicitly where PEG backtracks. These two
+  theorems say that those are the right places; with `C01_runtime_is_peg` they hold of the runtime in the plain configuration (the
+  theorems above state the same for the runtime directly, in every configuration). -/
+
+namespace PV
+namespace Spec
+
+/-- **C05, declaratively: an expression that fails leaves the store as it found it.** For every grammar with state-change blocks, code
+    environment, input, depth, context and start world: if the evaluation of `e` FAILS, the world the failure carries has the store of the
+    world the evaluation started with - whatever happened inside: state-change blocks, nested backtracking, recovered throws, rule calls. -/
+theorem C05_spec_failure_keeps_store (E : Env) (hu : E.useState = true) (f : Nat) (c : Ctx) (e : Expr) (env env' : List (String × Val))
+    (pt : Savepoint) (w w' : World) (h : eval E f c e env pt w = .fail env' w') : w'.state = w.state :=
+  eval_failKeeps E hu f c e env pt w env' w' h
+
+/-- **… and after a `&e` / `!e` predicate, matched or not, the store is the store from before it.** -/
+theorem C05_spec_predicate_keeps_store (E : Env) (hu : E.useState = true) (f : Nat) (c : Ctx) (e : Expr) (env env' : List (String × Val))
+    (pt pt' : Savepoint) (w w' : World) (v : Val) (hk : (∃ id e1, e = .and id e1) ∨ (∃ id e1, e = .not id e1))
+    (h : eval E (f + 1) c e env pt w = .ok v pt' env' w') : w'.state = w.state :=
+  pred_keeps_store E hu (eval E f) f c e env env' pt pt' w w' v hk h
+
+end Spec
 end PV
